@@ -35,7 +35,10 @@ Definition thr_ok (en : nat -> entry_cm) (tr : list event_cm) (t : nat) (p : pc_
   | SFillV k v _ _ e => In (CmStore k v) tr /\ e_w (en e) = Some (OwnT t) /\ e_k (en e) = k
   | GCheck _ e => In t (e_r (en e))
   | GCopy k e => In t (e_r (en e)) /\ e_k (en e) = k /\ e_v (en e) <> None
-  | GUnlockHit k _ v => In (CmStore k v) tr
+  | GUnlockMiss _ e => In t (e_r (en e))
+  (* the copy is finished and the read lock is STILL held: what is about to be returned is the value the entry_cm has
+     now (nobody can have released or refilled it meanwhile) *)
+  | GUnlockHit k e v => In (CmStore k v) tr /\ In t (e_r (en e)) /\ e_k (en e) = k /\ e_v (en e) = Some v
   | _ => True
   end.
 
@@ -231,6 +234,7 @@ Proof.
     cbn in Ht. destruct Ht as (Hin & Hk & Hv).
     destruct (e_v (ents s e)) as [v|] eqn:Ev; [|discriminate]. injection H as <-. cbn.
     apply (inv_thr _ _ _ (trace s)); cbn; auto.
+    split; [|auto].
     destruct (I1 e) as [A B]. rewrite <- Hk. apply B; auto.
     intros t0 W. rewrite A in Hin by (rewrite W; discriminate). exact Hin.
   - (* GUnlockMiss *)
@@ -243,7 +247,7 @@ Proof.
       intros t'' Hne2 Hin. apply In_rem_keep; auto.
     + eapply relw_keep; eauto.
   - (* GUnlockHit *)
-    inversion H; subst; cbn. clear H. cbn in Ht.
+    inversion H; subst; cbn. clear H. cbn in Ht. destruct Ht as (Ht & _).
     apply (inv_step _ _ (relw s) (trace s)); cbn; auto.
     + destruct (I1 e) as [A B]. split; cbn.
       * intros W. rewrite (A W). reflexivity.
@@ -318,6 +322,44 @@ Proof.
   specialize (I2 t). rewrite E in I2. cbn in I2. destruct I2 as (Hin & Hk & Hv). repeat split; auto.
   destruct (e_w (ents s e)) eqn:W; auto. exfalso. destruct (I1 e) as [A _].
   rewrite A in Hin by (rewrite W; discriminate). exact Hin.
+Qed.
+
+(* the copy is made, and finished, under the entry_cm's read lock: from the check to the RUnlock that publishes the hit
+   the goroutine holds a read lock of e, nobody holds the write lock, e still carries the looked-up key and the very
+   value that is copied / about to be returned, and that value was stored under that key.  The step that emits
+   [CmHit k v] is the RUnlock (the linearisation point): at that moment v IS the entry_cm's value. *)
+Theorem copy_under_lock : forall ls s, cm_run ls cm_init = Some s ->
+  forall t k e,
+    (thr s t = GCopy k e ->
+       In t (e_r (ents s e)) /\ e_w (ents s e) = None /\ e_k (ents s e) = k /\
+       exists v, e_v (ents s e) = Some v /\ In (CmStore k v) (trace s)) /\
+    (forall v, thr s t = GUnlockHit k e v ->
+       In t (e_r (ents s e)) /\ e_w (ents s e) = None /\ e_k (ents s e) = k /\
+       e_v (ents s e) = Some v /\ In (CmStore k v) (trace s)).
+Proof.
+  intros ls s H t k e. pose proof (run_inv ls cm_init s init_inv H) as (I1 & I2 & _).
+  assert (NoW : In t (e_r (ents s e)) -> e_w (ents s e) = None).
+  { intros Hin. destruct (e_w (ents s e)) eqn:W; auto. exfalso. destruct (I1 e) as [A _].
+    rewrite A in Hin by (rewrite W; discriminate). exact Hin. }
+  split.
+  - intros E. specialize (I2 t). rewrite E in I2. cbn in I2. destruct I2 as (Hin & Hk & Hv).
+    pose proof (NoW Hin) as W. repeat split; auto.
+    destruct (e_v (ents s e)) as [v|] eqn:Ev; [|congruence]. exists v. split; auto.
+    destruct (I1 e) as [_ B]. rewrite <- Hk. apply B; auto. intros t0. rewrite W. discriminate.
+  - intros v E. specialize (I2 t). rewrite E in I2. cbn in I2. destruct I2 as (Hs & Hin & Hk & Hv).
+    repeat split; auto.
+Qed.
+
+(* the step that returns a hit: it appends [CmHit k v] to the trace, and in the state it is taken from v is the value
+   of the entry_cm, which carries key k and whose read lock the goroutine still holds *)
+Theorem hit_is_entry_value : forall ls s, cm_run ls cm_init = Some s ->
+  forall t c k e v s', thr s t = GUnlockHit k e v -> cm_step s (LStep t c) = Some s' ->
+    trace s' = CmHit k v :: trace s /\
+    e_v (ents s e) = Some v /\ e_k (ents s e) = k /\ In t (e_r (ents s e)) /\ e_w (ents s e) = None.
+Proof.
+  intros ls s H t c k e v s' E Hs.
+  destruct (copy_under_lock ls s H t k e) as [_ B]. destruct (B v E) as (Hin & Hw & Hk & Hv & _).
+  cbn [cm_step] in Hs. unfold step_thread in Hs. rewrite E in Hs. inversion Hs; subst. cbn. auto.
 Qed.
 
 (* ---------- the quiescent operations are schedules of the small-cm_step system ---------- *)
